@@ -196,7 +196,7 @@ def run_check(prop_id, tier='quick', seed=0, verbose=False):
         except OSError:
             pass
     nshards = nworkers()
-    timeout_s = float(os.environ.get('VERIF_TIMEOUT_S', getattr(prop, 'TIMEOUT_S', {}).get(tier, 1500 if tier == 'quick' else 7200)))
+    timeout_s = float(os.environ.get('VERIF_TIMEOUT_S', getattr(prop, 'TIMEOUT_S', {}).get(tier, 420 if tier == 'quick' else 3600)))
     procs = []
     run_tag = '%s-%s-%d-%d' % (prop_id, tier, seed, os.getpid())
     env_vars = dict(os.environ)
